@@ -170,7 +170,7 @@ func valid(c *Case) bool {
 	for _, t := range Types {
 		okT = okT || t == c.T
 	}
-	if !okT || c.C < 1 || c.C > 8 || c.F < 0 || c.F > 1<<17 || c.RO < 0 || c.RO > c.F || len(c.Bounds) != len(c.Writers)+1 ||
+	if !okT || c.C < 1 || c.C > 128 || (c.C > 8 && c.F > 4096) || c.F < 0 || c.F > 1<<17 || c.RO < 0 || c.RO > c.F || len(c.Bounds) != len(c.Writers)+1 ||
 		len(c.Readers)+len(c.Writers) > 16 || len(c.Readers)+len(c.Writers) < 1 || len(c.Yield) != len(c.Readers)+len(c.Writers) ||
 		c.Procs < 1 || c.Procs > 64 || c.Repeat < 1 || c.Repeat > 50 || c.Partial < 0 || c.Partial >= c.C {
 		return false
@@ -336,6 +336,15 @@ func Gen(t *rapid.T) *Case {
 	c.F = rapid.IntRange(0, 48).Draw(t, "f")
 	if rapid.IntRange(0, 3).Draw(t, "bigF") == 0 { // windows of hundreds of samples, with odd sizes
 		c.F = rapid.IntRange(100, 700).Draw(t, "fBig")
+	}
+	if rapid.IntRange(0, 4).Draw(t, "wideSel") == 0 { // more channels than 8 (rarely more than 64), fewer frames
+		c.C = rapid.IntRange(5, 17).Draw(t, "cWide")
+		if kit.Chance(t, "cHuge", 1, 8) {
+			c.C = rapid.IntRange(60, 70).Draw(t, "cHuge")
+		}
+		if c.F > 64 {
+			c.F = 40 + c.F%25
+		}
 	}
 	c.RO = rapid.IntRange(0, c.F).Draw(t, "ro")
 	total := rapid.IntRange(2, 16).Draw(t, "goroutines")
